@@ -51,4 +51,4 @@ def instances(tier):
     # the global count of a |step| >= 2 slice over >= 3 blocks is a sum of ceil-divisions on which z3 answers unknown (DESIGN C13);
     # that program's block sizes are still checked under C01/C02 block by block
     return catalog.make_instances(tier, "C03", _body, "chunks/_layer of every catalogue class through _materialize",
-                                  select=lambda name: "[::-2]" not in name)
+                                  select=lambda name: "[::-2]" not in name and "[a:b:2,::-1]" not in name)
